@@ -87,9 +87,21 @@ class Operator(Token):
                 self.attr['name'] = 'u%s' % self.name
                 _update_n_args(stack)
 
+    def check_left_operand(self, tokens):
+        if self.name in ('u-', 'u+'):
+            return
+        from .operand import Operand, Empty
+        t = tokens[-2] if len(tokens) > 1 else None
+        b = isinstance(t, Parenthesis) and t.has_end
+        b |= isinstance(t, Operator) and t.name == '%'
+        b |= isinstance(t, Operand) and not isinstance(t, Empty)
+        if not b:  # Binary and postfix operators need a left operand.
+            raise FormulaError()
+
     def ast(self, tokens, stack, builder):
         super(Operator, self).ast(tokens, stack, builder)
         self.update_name(tokens, stack)
+        self.check_left_operand(tokens)
         pred = self.pred
         while stack and isinstance(stack[-1], Operator):
             if pred > stack[-1].pred:
